@@ -167,12 +167,18 @@ def _r1(ctx, gr):
 
 
 def _callbacks(cls_node):
+    """name -> callback; a `def f(self, x): return <expr>` is presented as the lambda it is equivalent to"""
     out = {}
     for s in cls_node.body:
         if isinstance(s, ast.Assign) and isinstance(s.targets[0], ast.Name):
             out[s.targets[0].id] = s.value
         elif isinstance(s, ast.FunctionDef):
-            out[s.name] = s
+            body = [x for x in s.body if not (isinstance(x, ast.Expr) and isinstance(x.value, ast.Constant))]
+            if len(body) == 1 and isinstance(body[0], ast.Return) and body[0].value is not None and not s.decorator_list:
+                lam = ast.Lambda(args=s.args, body=body[0].value)
+                out[s.name] = ast.copy_location(lam, s)
+            else:
+                out[s.name] = s
     return out
 
 
